@@ -199,7 +199,7 @@ def _run_tables(ctx):
         gg = C.G(g)
         for n in gg.nodes("execute"):
             bad = gg.succ(n, "1")
-            ctx.ob("R4", "fatal=>stop:%s" % n, bool(bad) and all(x.startswith("RET(call:FromResidual") for x in bad), "after a fatal child outcome (execute() = Err) xargs must return at once, running no further command; next events: %s" % bad, fn=f, how="event graph")
+            ctx.ob("R4", "fatal=>stop:%s" % n, bool(bad) and all(C.is_err_ret(x) for x in bad), "after a fatal child outcome (execute() = Err) xargs must return at once, running no further command; next events: %s" % bad, fn=f, how="event graph")
             good = gg.succ(n, "0")
             ctx.ob("R4", "nonfatal=>combined:%s" % n, bool(good) and all(C.base(x) == "combine" for x in good), "a non-fatal child result must be folded into the accumulated result; next events: %s" % good, fn=f, how="event graph")
         # combine receives the accumulated `result` and the value of this execute; the function returns Ok(result)
